@@ -106,11 +106,14 @@ func (s *set[ElementType]) Replace(elements ReadableSet[ElementType]) (removedEl
 	defer s.applyMutex.Unlock()
 
 	previousElements := s.ToSlice()
+
+	// the new elements are read before the set is cleared: the argument may be (a read-only view of) this very set
+	newElements := elements.ToSlice()
 	s.Clear()
 
-	elements.Range(func(element ElementType) {
+	for _, element := range newElements {
 		s.Set(element, types.Void)
-	})
+	}
 
 	removedElements = NewSet[ElementType]()
 	for _, previousElement := range previousElements {
